@@ -1186,6 +1186,83 @@ func c14StatusBeforeBody(c *core.Ctx) {
 				c.Check(bad == token.NoPos, core.FuncName(fn)+":no-own-verdict-before-the-status-header", dec.Pos(), "no error of the library's own making is returned between the round trip and the status decoder", "after the reply arrived the call can fail with an error constructed by the client itself before the reply's status header is looked at: the caller gets that code instead of the one the server sent")
 			}
 		}
+		// the verdict the server sent is the verdict the caller gets: the return taken because the decoded status is
+		// not OK returns that very status's error — not something computed from it and the state of the call (a
+		// context that ended in the meantime does not turn NotFound into Canceled)
+		{
+			fromDec := func(v ssa.Value) bool {
+				return core.OriginIs(v, func(o ssa.Value) bool { cr, _, ok := core.CallResult(o); return ok && cr == dec })
+			}
+			isVerdictFact := func(f core.Fact) bool {
+				if f.Op != token.NEQ && f.Op != token.EQL {
+					return false
+				}
+				cr, _, ok := core.CallResult(f.X)
+				if !ok {
+					return false
+				}
+				ci := core.InfoOf(&cr.Call)
+				if ci.Name != "Code" || len(core.Args(&cr.Call)) == 0 {
+					return false
+				}
+				k, isC := core.ConstInt(f.Y)
+				return isC && k == 0 && f.Op == token.NEQ && fromDec(core.Args(&cr.Call)[0])
+			}
+			isOwnErr := func(v ssa.Value) bool {
+				cr, _, ok := core.CallResult(v)
+				if !ok {
+					return false
+				}
+				return core.InfoOf(&cr.Call).Name == "Err" && len(core.Args(&cr.Call)) > 0 && fromDec(core.Args(&cr.Call)[0])
+			}
+			nV := 0
+			for _, r := range core.ErrReturns(fn) {
+				if !core.GuardedBy(r, isVerdictFact) {
+					continue
+				}
+				nV++
+				bad := ""
+				for _, l := range expandLeaves(core.ErrLeaves(r.Results[len(r.Results)-1], r), 0) {
+					if isOwnErr(l.V) {
+						continue
+					}
+					// handed through a function that returns its argument as it is
+					if cr, _, ok := core.CallResult(l.V); ok {
+						h := cr.Call.StaticCallee()
+						through := h != nil && h.Blocks != nil
+						if through {
+							argOK := false
+							var par *ssa.Parameter
+							for i, a := range cr.Call.Args {
+								if isOwnErr(a) && i < len(h.Params) {
+									argOK, par = true, h.Params[i]
+								}
+							}
+							through = argOK
+							if through {
+								for _, hr := range core.Returns(h) {
+									for _, hl := range core.ErrLeaves(hr.Results[len(hr.Results)-1], hr) {
+										if hl.V != ssa.Value(par) {
+											through = false
+										}
+									}
+								}
+							}
+						}
+						if through {
+							continue
+						}
+						bad = core.InfoOf(&cr.Call).Name + "(…)"
+						continue
+					}
+					bad = core.ValName(l.V)
+				}
+				c.Check(bad == "", core.FuncName(fn)+":server-verdict-returned-as-is", r.Pos(), "the non-OK status decoded from the reply is returned as it is", "on the reply's non-OK status the call returns "+bad+" instead of that status's own error: the code the server sent can be replaced (by the context's, say, when the caller's context ended after the reply arrived)")
+			}
+			if nV == 0 {
+				c.Fail(core.FuncName(fn)+":server-verdict-returned-as-is", dec.Pos(), "no return of the unary call is taken on the decoded status being non-OK")
+			}
+		}
 		core.Instrs(fn, func(in ssa.Instruction) {
 			sel, ok := in.(*ssa.Select)
 			if !ok || !sel.Blocking {
